@@ -8,6 +8,7 @@ import (
 	"regexp"
 	"sort"
 	"strings"
+	"sync"
 
 	"golang.org/x/tools/go/cfg"
 
@@ -120,12 +121,93 @@ func (d *dispatchSite) entryBlock(b int) *cfg.Block {
 	return d.cf.SwitchDoneBlock(d.bs.Stmt)
 }
 
-// isCursorExpr: the repository names every scan position `cursor` (local or
-// Stream field); that name is the idiom the analysis keys on.
+// Scan positions are found by role, not by name: a variable of type int64 is a scan cursor of its function when it
+// indexes a byte slice or string there (`buf[c]`, `buf[c+k]`) or is the position argument of char(p, c); the cursor
+// field of Stream is one by declaration. The identifiers that denote such variables are marked once per loaded
+// program.
+var cursorIdents sync.Map // *ast.Ident → true
+var cursorObjs sync.Map   // types.Object → true
+
+func isCursorObj(o types.Object) bool {
+	if v, ok := o.(*types.Var); ok && v.IsField() {
+		return v.Name() == "cursor"
+	}
+	_, ok := cursorObjs.Load(o)
+	return ok
+}
+
+func init() { core.Prepare = append(core.Prepare, markCursors) }
+
+func markCursors(p *core.Program) {
+	for _, pk := range p.LibPkgs() {
+		info := pk.TypesInfo
+		cursors := map[types.Object]bool{}
+		isInt64Var := func(e ast.Expr) types.Object {
+			e = core.Unparen(e)
+			if be, ok := e.(*ast.BinaryExpr); ok && (be.Op == token.ADD || be.Op == token.SUB) {
+				e = core.Unparen(be.X)
+			}
+			id, ok := e.(*ast.Ident)
+			if !ok {
+				return nil
+			}
+			v, ok := core.ObjOf(info, id).(*types.Var)
+			if !ok || v.IsField() {
+				return nil
+			}
+			if b, ok := v.Type().Underlying().(*types.Basic); !ok || b.Kind() != types.Int64 {
+				return nil
+			}
+			return v
+		}
+		for _, f := range pk.Syntax {
+			ast.Inspect(f, func(x ast.Node) bool {
+				switch v := x.(type) {
+				case *ast.IndexExpr:
+					t := info.TypeOf(v.X)
+					if t == nil {
+						return true
+					}
+					bytes := false
+					switch u := t.Underlying().(type) {
+					case *types.Slice:
+						b, ok := u.Elem().Underlying().(*types.Basic)
+						bytes = ok && b.Kind() == types.Uint8
+					case *types.Basic:
+						bytes = u.Info()&types.IsString != 0
+					}
+					if bytes {
+						if o := isInt64Var(v.Index); o != nil {
+							cursors[o] = true
+						}
+					}
+				case *ast.CallExpr:
+					if id, ok := core.Unparen(v.Fun).(*ast.Ident); ok && id.Name == "char" && len(v.Args) == 2 {
+						if o := isInt64Var(v.Args[1]); o != nil {
+							cursors[o] = true
+						}
+					}
+				}
+				return true
+			})
+		}
+		for _, f := range pk.Syntax {
+			ast.Inspect(f, func(x ast.Node) bool {
+				if id, ok := x.(*ast.Ident); ok && cursors[core.ObjOf(info, id)] {
+					cursorIdents.Store(id, true)
+					cursorObjs.Store(core.ObjOf(info, id), true)
+				}
+				return true
+			})
+		}
+	}
+}
+
 func isCursorExpr(e ast.Expr) bool {
 	switch x := core.Unparen(e).(type) {
 	case *ast.Ident:
-		return x.Name == "cursor"
+		_, ok := cursorIdents.Load(x)
+		return ok
 	case *ast.SelectorExpr:
 		return x.Sel.Name == "cursor"
 	}
@@ -1040,11 +1122,11 @@ func c05r7(rc *core.RC) {
 				ast.Inspect(nd, func(k ast.Node) bool {
 					switch x := k.(type) {
 					case *ast.IncDecStmt:
-						if x.Tok == token.INC && strings.Contains(strings.ToLower(core.Src(p.Fset, x.X)), "cursor") {
+						if x.Tok == token.INC && isCursorExpr(x.X) {
 							found = true
 						}
 					case *ast.AssignStmt:
-						if x.Tok == token.ADD_ASSIGN && len(x.Lhs) == 1 && strings.Contains(strings.ToLower(core.Src(p.Fset, x.Lhs[0])), "cursor") {
+						if x.Tok == token.ADD_ASSIGN && len(x.Lhs) == 1 && isCursorExpr(x.Lhs[0]) {
 							if v, isC := core.ConstInt(info, x.Rhs[0]); isC && v >= 1 {
 								found = true
 							}
